@@ -216,7 +216,7 @@ def streams(ctx, only_deterministic=False):
         add('c', 'c_to_ir', src, 'c-boundary', 0, march=['x86_64', 'arm', 'msp430'][h(src) % 3], opt=0)
     for (k, src) in c28_bad.boundary_functions():     # the same literals as operands, through the whole compiler
         add('c', 'cc', src, 'c-boundary-cc', 0, march=['x86_64', 'arm', 'riscv'][h(src) % 3], opt=(h(src) // 3) % 3)
-    for (k, src) in c28_c3.c3_boundary():
+    for (k, src) in c28_c3.c3_boundary() + c28_c3.c3_const_ops():
         add('c3', 'c3_to_ir', src, 'c3-boundary', 0, march=['x86_64', 'arm', 'msp430'][h(src) % 3], opt=0,
             includes=[c28_c3.BSP])
     return tasks
